@@ -102,7 +102,9 @@ class SgxDevice(LedgerDevice):
             if ins == INS_IS_ONBOARD:
                 if cfg.get("onboard_error"):
                     raise _SW(cfg["onboard_error"])
-                v = self.signer_version
+                # one enclave reports one version; a model option lets the version seen while locked
+                # differ (the property quantifies over UI / signer versions on every platform)
+                v = self.ui_version if (self.locked and cfg.get("two_versions")) else self.signer_version
                 return (bytes([CLA, 1 if self.onboarded else 0, v[0], v[1], v[2]]), SW_OK)
             if self.locked:
                 raise _SW(ERR_DEVICE_LOCKED)
